@@ -66,6 +66,13 @@ class WebSocketUnavailable(WebSocketError):
     """The websocket can not be used."""
 
 
+class WebSocketBusy(WebSocketUnavailable):
+    """Raised when a send is attempted from within a send on the same
+    thread (by a signal handler or a finaliser); frames can't be nested.
+
+    """
+
+
 class WebSocketClosed(WebSocketUnavailable):
     """Raised when attempting to send over a closed websocket."""
 
